@@ -779,6 +779,35 @@ func (ev *EvalCtx) evalCall(e ECall) TV {
 		tag := fc.eng.ti.TagOf(t)
 		fc.concreteTags[tag] = t
 		return TV{V: scalar(Eq(ITag(x.V.T), IntLit(int64(tag))))}
+	case "aval":
+		// aval(x): current value of the typed atomic x (atomic.Int32 / Int64 / Uint32 / Uint64 / Bool / Pointer[T])
+		argn(1)
+		x := ev.eval(e.Args[0])
+		if x.Addr == nil {
+			ev.fail("aval() needs an addressable atomic")
+		}
+		var vt types.Type
+		tn := types.TypeString(x.T, nil)
+		switch {
+		case strings.HasSuffix(tn, "atomic.Int32"):
+			vt = types.Typ[types.Int32]
+		case strings.HasSuffix(tn, "atomic.Int64"):
+			vt = types.Typ[types.Int64]
+		case strings.HasSuffix(tn, "atomic.Uint32"):
+			vt = types.Typ[types.Uint32]
+		case strings.HasSuffix(tn, "atomic.Uint64"):
+			vt = types.Typ[types.Uint64]
+		case strings.HasSuffix(tn, "atomic.Bool"):
+			vt = types.Typ[types.Bool]
+		default:
+			if nt, ok := types.Unalias(x.T).(*types.Named); ok && strings.Contains(tn, "atomic.Pointer[") && nt.TypeArgs().Len() == 1 {
+				vt = types.NewPointer(nt.TypeArgs().At(0))
+			} else {
+				ev.fail("aval(): %s is not a typed atomic", tn)
+			}
+		}
+		cell := MkPtr(PObj(x.Addr), Add(PSlot(x.Addr), IntLit(2048)))
+		return TV{V: ev.specLoad(cell, vt), T: vt, Addr: cell}
 	case "implements":
 		// implements(x, "I"): x is a non-nil interface value whose dynamic type implements interface I
 		argn(2)
